@@ -954,7 +954,7 @@ func lsnChild(a lib.Args) {
 		n /= 4
 	} else {
 		// exchanges the listener cannot answer (kind lsn.noreply, known to the C06 dispatcher only)
-		nn := 12
+		nn := 18
 		if a.Tier == "thorough" {
 			nn = 100
 		}
